@@ -552,9 +552,26 @@ def generate_many(jobs, workers=6):
     return out
 
 
+# fixed schema shapes that past property-breaking changes needed (each was first reached by chance or not at all)
+FIXED_SHAPES = {
+    "two_files_one_package_last_needs_no_typing": {
+        "a_first.proto": 'syntax = "proto3";\npackage shapes.one;\nmessage First { repeated int32 xs = 1; map<string, int32> m = 2; optional int32 o = 3; }\n',
+        "z_last.proto": 'syntax = "proto3";\npackage shapes.one;\nmessage Last { int32 z = 1; string note = 2; }\n'},
+    "well_known_type_only_as_map_value": {
+        "m.proto": 'syntax = "proto3";\npackage shapes.two;\nimport "google/protobuf/timestamp.proto";\nimport "google/protobuf/duration.proto";\n'
+                   'message Holder { map<string, google.protobuf.Timestamp> seen = 1; }\nmessage Other { map<int32, google.protobuf.Duration> took = 1; }\n'},
+    "optional_fields_but_no_oneof_anywhere": {
+        "o.proto": 'syntax = "proto3";\npackage shapes.three;\nmessage Opt { optional int32 a = 1; optional string b = 2; }\nmessage Plain { int32 c = 1; }\n'},
+    "comment_edge_cases": {
+        "c.proto": 'syntax = "proto3";\npackage shapes.four;\n// Install root, e.g. C:\\\nmessage Root { // ends with a quote "\n  string path = 1;\n  // a \\" inside\n  int32 n = 2;\n}\n'},
+    "enum_member_names_with_digits_and_leading_underscore": {
+        "e.proto": 'syntax = "proto3";\npackage shapes.five;\nenum HttpVersion { HTTP_VERSION_UNSPECIFIED = 0; HTTP_VERSION_1_1 = 1; HTTP_VERSION_2 = 2; }\nmessage Req { HttpVersion v = 1; }\n'},
+}
+
+
 def corpus():
     base = os.path.join(os.environ.get("VERIF_REPO", "/repo"), "tests", "inputs")
-    out = []
+    out = [("shape/" + k, dict(v)) for k, v in FIXED_SHAPES.items()]
     for d in sorted(os.listdir(base)):
         p = os.path.join(base, d)
         if not os.path.isdir(p) or d in CORPUS_XFAIL:
@@ -645,7 +662,8 @@ def run(chk, drv):
         chk.count("construct_" + k, v)
     cj = corpus()
     if quick:
-        cj = cj[chk.seed % 4::4]
+        # the fixed shapes always, a quarter of the repository's own inputs
+        cj = [x for x in cj if x[0].startswith("shape/")] + [x for x in cj if not x[0].startswith("shape/")][chk.seed % 4::4]
     jobs_all = [(l, p, "generated") for l, p in jobs] + [(l, p, "corpus") for l, p in cj]
     B = 24
     for b in range(0, len(jobs_all), B):
